@@ -93,6 +93,11 @@ type solveOpts struct {
 
 // discharge decides one obligation.
 func discharge(o *Obligation, idx int, opt solveOpts) {
+	if o.Short {
+		opt.timeoutS = 4
+		opt.retried = true
+		opt.confirm = false
+	}
 	// stage 0: safety obligations are usually decided by a handful of local facts
 	if !o.ExpectSat && !strings.Contains(o.Goal, "(forall") && !strings.Contains(o.Goal, "(exists") {
 		tq := o.queryMode(false, true)
